@@ -10,6 +10,7 @@ mismatches.  16 shards keep the 16 cores busy.
 from __future__ import annotations
 
 import json
+import concurrent.futures
 import multiprocessing
 import os
 import shutil
@@ -176,8 +177,19 @@ def run_family(tag, progs, names, dev=(), invariants=(), properties=(), perms=(0
                  replay, base, extra_env, simulate, collect)
                 for sid, sh in enumerate(shards)]
         ctx = multiprocessing.get_context("fork")
-        with ctx.Pool(min(16, nshards)) as pool:
-            res = pool.map(_shard, jobs)
+        # an executor, not multiprocessing.Pool: when a worker dies (killed by the kernel, say) Pool.map waits for
+        # ever; the executor raises BrokenProcessPool and the family is reported as a machinery failure
+        res = []
+        with concurrent.futures.ProcessPoolExecutor(min(16, nshards), mp_context=ctx) as pool:
+            futs = [pool.submit(_shard, j) for j in jobs]
+            for sid, fu in enumerate(futs):
+                try:
+                    res.append(fu.result())
+                except Exception as e:   # noqa
+                    res.append(dict(sid=sid, states=0, distinct=0, behaviours=0, replays=0, programs=len(shards[sid]),
+                                    mismatches=[], tlc_violation=None, samples=[], compiled=0, wall_tlc=0.0,
+                                    wall_replay=0.0, nontrivial=0,
+                                    tlc_error="machinery failure: shard %d worker died (%s: %s)" % (sid, type(e).__name__, e)))
     finally:
         shutil.rmtree(wd, ignore_errors=True)
     agg = dict(tag=tag, programs=len(progs), states=0, distinct=0, behaviours=0, replays=0, compiled=0,
